@@ -49,7 +49,7 @@ def main():
             continue
         d, content = c13.snapshot(r[1])
         print(json.dumps({"dumps": d, "content": content, "pairing": pairing(r[1]),
-                          "parameters": sorted(r[1].parameters), "modes": sorted(int(m) for m in r[1].modes)}))
+                          "parameters": sorted(r[1].parameters), "modes": sorted(str(m) for m in r[1].modes)}))
 
 
 if __name__ == "__main__":
